@@ -4,7 +4,8 @@ Space (exhaustive): all 260 single characters of printable ASCII, Latin-1 (witho
 Greek U+0386..03CE; all pairs over a 24-character alphabet (narrow, wide, space, digits, the kerning pairs
 AV / To, the fi ligature, accented, Greek; 14 fixed + 10 rotated by VERIF_SEED in the quick tier); all
 triples over 8 of them; x the 10 fonts, each by number AND by name x sizes {4, 4.5, 5, 6, 7.5, 9, 9.5, 12,
-18, 24, 36, 48} (thorough: 4..48 step 0.5, and all 260x260 pairs at the 12 sizes); units {in, mm, px} x
+18, 24, 36, 48} + {4.2, 5.25, 7.33, 10.8, 13.3} (not multiples of 0.5 pt; thorough: 4..48 step 0.5, 4..12 step 0.1 and a
+few more odd sizes; all 260x260 pairs at the 12 design sizes); units {in, mm, px} x
 dpi {36, 72, 96, 300, 600} on the empty string, the 24 singles and 16 pairs.
 Oracle (the clauses of the property text): width("") == 0; width >= 0; mm == in*25.4 and px == in*dpi
 (relative 1e-12); number == name (bit-identical); width(s+c) >= width(s); |w(s,a)/a - w(s,b)/b| <= 1% of the
@@ -46,8 +47,12 @@ A8 = ["i", ".", " ", "W", "A", "V", "T", "o"]     # narrow, space, wide, kerning
 CORE = A8 + ["'", "M", "0", "f", "é", "α"]   # 14 fixed members of the pair alphabet
 DEFAULT_ROT = ["l", "1", "m", "Å", "·", "Ω", "ώ", "@", "-", ","]
 
-QUICK_SIZES = [4, 4.5, 5, 6, 7.5, 9, 9.5, 12, 18, 24, 36, 48]
-THOROUGH_SIZES = [4 + 0.5 * i for i in range(89)]
+DESIGN_SIZES = [4, 4.5, 5, 6, 7.5, 9, 9.5, 12, 18, 24, 36, 48]
+# sizes that are not multiples of 0.5 pt (nor of 1/64 pt): a size silently snapped to a grid shows up in the scaling clause
+ODD_SIZES = [4.2, 5.25, 7.33, 10.8, 13.3]
+QUICK_SIZES = sorted(DESIGN_SIZES + ODD_SIZES)
+THOROUGH_SIZES = sorted(set([4 + 0.5 * i for i in range(89)] + [round(4 + 0.1 * i, 1) for i in range(81)]
+                            + ODD_SIZES + [17.77, 23.45, 31.4159, 47.9]))
 QUICK_DPI = [36, 72, 96, 300, 600]
 THOROUGH_DPI = [36, 48, 72, 72.27, 96, 120, 150, 200, 300, 400, 600]
 UNITS = ("in", "mm", "px")
@@ -76,15 +81,23 @@ def is_26_6(x: float) -> bool:
     return abs(x * 64 - round(x * 64)) < 1e-9
 
 
+def size_26_6(z: float) -> float:
+    """The character size itself is handed to FreeType in 26.6 fixed point, truncated: (FT_F26Dot6)(size * 64)."""
+    return int(z * 64) / 64.0
+
+
 def quantisation_explains(a, wa, b, wb, terms: int) -> bool:
-    """FreeType/HarfBuzz deliver advances in 26.6 fixed point: each glyph advance (and each kerning adjustment) of the
-    string is rounded to the nearest 1/64 px, i.e. is off by at most 1/128 px.  With `terms` rounded summands the measured
-    width at size z is L*z + e_z with |e_z| <= terms/128 for ONE linear advance L (px per pt).  Two measurements are
-    consistent with that - and with nothing more - exactly if the intervals [(w_z - e)/z, (w_z + e)/z] overlap:
-        |w_a/a - w_b/b| <= (terms/128) * (1/a + 1/b).
-    The class fires only then, and only if both widths are whole multiples of 1/64 px."""
+    """FreeType/HarfBuzz work in 26.6 fixed point: the size z is truncated to z' = floor(64 z)/64 and each glyph advance
+    (and each kerning adjustment) of the string is rounded to the nearest 1/64 px, i.e. is off by at most 1/128 px.  With
+    `terms` rounded summands the measured width at size z is L*z' + e_z with |e_z| <= terms/128 for ONE linear advance L
+    (px per pt).  Two measurements are consistent with that - and with nothing more - exactly if the intervals
+    [(w_z - e)/z', (w_z + e)/z'] overlap:
+        |w_a/a' - w_b/b'| <= (terms/128) * (1/a' + 1/b').
+    The class fires only then, and only if both widths are whole multiples of 1/64 px.  (For sizes that are multiples of
+    1/64 pt - all sizes of the original design set - z' = z.)"""
     if not (is_26_6(wa) and is_26_6(wb)):
         return False
+    a, b = size_26_6(a), size_26_6(b)
     e = terms / 128.0
     return abs(wa / a - wb / b) <= e * (1.0 / a + 1.0 / b) * (1 + 1e-9)
 
@@ -115,7 +128,7 @@ def strings_for(head: str, mode: str, a24: list) -> list:
     return out
 
 
-def measure(font, sizes, strings, cnt, viol, both=True):
+def measure(font, sizes, strings, cnt, viol, both=True, both_maxlen=3):
     """widths by number (px, 72 dpi); by name compared on the fly. Returns {(s, z): w} or None when a call raised."""
     w = gsw()
     name = FONT_NAMES[font]
@@ -125,7 +138,7 @@ def measure(font, sizes, strings, cnt, viol, both=True):
             for s in [""] + strings:
                 v = w(s, font, z, "px")
                 cnt["calls"] += 1
-                if both:
+                if both and len(s) <= both_maxlen:
                     v2 = w(s, name, z, "px")
                     cnt["calls"] += 1
                     cnt["name-vs-number"] += 1
@@ -149,7 +162,7 @@ def eval_metric(case: dict) -> dict:
     strings = []
     for h in case["heads"]:
         strings += strings_for(h, mode, a24)
-    W = measure(font, sizes, strings, cnt, viol, both=case.get("both", True))
+    W = measure(font, sizes, strings, cnt, viol, both=case.get("both", True), both_maxlen=case.get("name_maxlen", 3))
     if W is None:
         return {"viol": viol, "nt": False, "cnt": cnt}
     if case.get("digest_only"):
@@ -234,7 +247,7 @@ def eval_units(case: dict) -> dict:
     try:
         for f in fonts:
             for dpi in case["dpi"]:
-                for s in case["strings"]:
+                for s in (case["strings"] if f == font else case["strings"][:case.get("name_strings", len(case["strings"]))]):
                     vin, vmm, vpx = (w(s, f, z, u, dpi) for u in UNITS)
                     cnt["calls"] += 3
                     cnt["unit-triples"] += 1
@@ -317,13 +330,16 @@ def eval_case(case: dict) -> dict:
 # --------------------------------------------------------------------------- enumeration
 
 
-def metric_cases(sizes, a24, fonts=None, digest_only=False):
+def metric_cases(sizes, a24, fonts=None, digest_only=False, name_maxlen=3):
     cases = []
     others = [c for c in ALL if c not in a24]
     for font in (fonts or sorted(FONT_NAMES)):
         extra = {"a24": a24}
+        if name_maxlen != 3:
+            extra["name_maxlen"] = name_maxlen     # spell the font by name only for strings up to this length
         if digest_only:
             extra["digest_only"] = True
+            extra["both"] = False
         for h in a24:
             cases.append({"font": font, "sizes": sizes, "heads": [h], **extra})
         for i in range(0, len(others), 30):
@@ -337,9 +353,9 @@ def plan(run):
     assert len(set(a24)) == 24 and len(ALL) == 260 and len(set(ALL)) == 260
     sizes = THOROUGH_SIZES if thorough else QUICK_SIZES
     dpis = THOROUGH_DPI if thorough else QUICK_DPI
-    run.rule = ("strings = 260 singles + 24^2 pairs + 8^3 triples" + (" + all 260^2 pairs (at the 12 quick sizes, by number)" if thorough else "")
-                + f"; x 10 fonts by number and by name x {len(sizes)} sizes {sizes[0]}..{sizes[-1]}; unit clause on ('' + 24 singles + 16 pairs) x "
-                f"10 fonts x 2 spellings x {len(QUICK_SIZES)} sizes x 3 units x {len(dpis)} dpi; error clause: {len(BAD_FONTS)} bad fonts and "
+    run.rule = ("strings = 260 singles + 24^2 pairs + 8^3 triples" + (" + all 260^2 pairs (at the 12 design sizes, by number)" if thorough else "")
+                + f"; x 10 fonts by number and by name" + ("" if thorough else " (triples by number only)") + f" x {len(sizes)} sizes {sizes[0]}..{sizes[-1]} incl. sizes that are not multiples of 0.5 pt; unit clause on ('' + 24 singles + 16 pairs) x "
+                f"10 fonts (by number; by name on " + ("all of them" if thorough else "'' + 8 singles") + f") x {len(DESIGN_SIZES)} sizes x 3 units x {len(dpis)} dpi; error clause: {len(BAD_FONTS)} bad fonts and "
                 f"{len(BAD_UNITS)} bad units x all valid other arguments. The pair alphabet is " + repr("".join(a24))
                 + (" (10 of its members rotated by VERIF_SEED)" if not thorough else "")
                 + ". one evaluation = one batch (font x head characters x all sizes); coverage.calls counts get_string_width calls. "
@@ -357,14 +373,16 @@ def plan(run):
             c = r["_case"]
             digests[(c["font"], "".join(c["heads"]))] = (r["digest"], r.get("pid"))
 
-    mcases = metric_cases(sizes, a24)
+    nml = 3 if thorough else 2    # quick: triples by number only (the name -> file lookup does not depend on the string)
+    mcases = metric_cases(sizes, a24, name_maxlen=nml)
     run.layer("metric-relations", "mc.props.c20:eval_case", mcases, chunk=1, total=len(mcases), max_samples=3, on_result=remember)
     if thorough:
         # by number only: the name -> file lookup does not depend on the string (it is covered on the whole set above)
-        fcases = [{"font": f, "sizes": QUICK_SIZES, "heads": [h], "mode": "full-pairs", "both": False} for f in sorted(FONT_NAMES) for h in ALL]
+        fcases = [{"font": f, "sizes": DESIGN_SIZES, "heads": [h], "mode": "full-pairs", "both": False} for f in sorted(FONT_NAMES) for h in ALL]
         run.layer("all-pairs-260x260", "mc.props.c20:eval_case", fcases, chunk=2, total=len(fcases), max_samples=1)
     ustrings = [""] + a24 + [a + b for a in A8[:4] for b in A8[4:]]
-    ucases = [{"k": "units", "font": f, "size": z, "dpi": dpis, "strings": ustrings} for f in sorted(FONT_NAMES) for z in QUICK_SIZES]
+    # quick: by name only on '' and the 8 core singles (the conversion code does not depend on the string)
+    ucases = [{"k": "units", "font": f, "size": z, "dpi": dpis, "strings": ustrings, **({} if thorough else {"name_strings": 9})} for f in sorted(FONT_NAMES) for z in DESIGN_SIZES]
     run.layer("units-x-dpi", "mc.props.c20:eval_case", ucases, chunk=1, total=len(ucases))
     ecases = [{"k": "errors", "bad_font": b, "sizes": [4, 9.5, 48]} for b in BAD_FONTS]
     ecases += [{"k": "errors", "bad_unit": u, "sizes": [4, 9.5, 48]} for u in BAD_UNITS]
